@@ -121,7 +121,7 @@ PROPS["C07"] = dict(
                  "Proofs/AnsC.v", "Tie/Entry.v", "Tie/CallGraph.v", "Props/C07.v"],
     proof_targets=["Props/C07.vo"],
     props_module="Props.C07",
-    theorems=["C07_code_follows_the_lock_discipline", "C07_no_torn_read", "C07_guard_pins",
+    theorems=["C07_code_follows_the_lock_discipline", "C07_every_reader_takes_the_lock", "C07_no_torn_read", "C07_guard_pins",
               "C07_change_needs_write_lock", "C07_only_passes_write",
               "C07_update_happens_inside_the_callers_hot_reload",
               "C07_hot_reload_returns_after_its_update", "C07_zero_duration_lock_is_rejected_and_tears"],
@@ -289,15 +289,15 @@ PROPS["C10"] = dict(
                "behaviour as far as sysdiff explores.",
     level_note="Trusted: Coq kernel+VM, rs2v, the harness universe and hooks (pass order, settle barrier); "
                "Handle::get's reference validity is the Rust-level consequence (not modelled).",
-    gen=["Entry", "Anycache"],
+    gen=["Entry", "Anycache", "Flags", "Dirs"],
     model_files=SYS_MODEL_FILES,
     model_targets=["Corr/SysCheck.vo"],
-    proof_files=["Proofs/SysGrows.v", "Proofs/SysStatic.v", "Tie/Static.v", "Props/C10.v"],
+    proof_files=["Proofs/SysGrows.v", "Proofs/SysStatic.v", "Tie/Static.v", "Tie/Dirs.v", "Props/C10.v"],
     proof_targets=["Props/C10.vo"],
     props_module="Props.C10",
     theorems=["C10_code_decides_reloadability_as_modelled", "C10_no_reloader_or_opted_out_is_static",
               "C10_get_or_insert_is_static", "C10_static_never_written",
-              "C10_static_never_written_in_any_history"],
+              "C10_static_never_written_in_any_history", "C10_flag_is_forwarded"],
     engines=[("sysdiff", ["--mode", "all"])],
     relevant_classes=["non-reloadable-rewritten"],
     rule=SYS_RULE,
@@ -347,13 +347,14 @@ sys_prop(
     "cached under its key.  One model serves the three front-ends; sysdiff runs the same histories through "
     "all of them.  Partial: `a failed load caches nothing under its own key` is observed by the "
     "correspondence, not proved (it needs a termination argument for self-referential scripts).",
-    ["Proofs/SysGrows.v", "Proofs/SysStatic.v", "Proofs/SysMap.v", "Tie/Graph.v", "Props/C02.v"], ["Props/C02.vo"],
+    ["Proofs/SysGrows.v", "Proofs/SysStatic.v", "Proofs/SysMap.v", "Tie/Graph.v", "Tie/Maps.v", "Props/C02.v"],
+    ["Props/C02.vo"],
     ["C02_load_only_adds", "C02_load_owned_adds_nothing_of_its_own", "C02_get_cached_and_contains_add_nothing",
      "C02_load_of_a_present_key_returns_it", "C02_successful_load_is_cached",
      "C02_get_or_insert_never_overwrites", "C02_get_or_insert_inserts_when_absent",
      "C02_remove_deletes_exactly_its_key", "C02_take_deletes_exactly_its_key_and_returns_it",
-     "C02_clear_empties", "C02_code_keys_compare_type_and_id"],
-    ["Private", "Deps"], ["handle-changed", "key-type-confusion"])
+     "C02_clear_empties", "C02_code_keys_compare_type_and_id", "C02_code_maps_address_the_given_key"],
+    ["Private", "Deps", "CacheMap", "LocalMap"], ["handle-changed", "key-type-confusion"])
 
 sys_prop(
     "C03",
@@ -416,12 +417,12 @@ sys_prop(
     "(visited set = model's reachable set; I/O traces equal).",
     ["Proofs/SysGrows.v", "Proofs/SysFrame.v", "Proofs/SysStatic.v", "Proofs/SysMap.v", "Proofs/SysReload.v",
      "Proofs/Dfs.v", "Proofs/RwProof.v", "Proofs/RwStep.v", "Proofs/RwPin.v", "Tie/Entry.v", "Tie/CallGraph.v",
-     "Props/C06.v"],
+     "Tie/Graph.v", "Props/C06.v"],
     ["Props/C06.vo"],
     ["C06_loads_leave_reloader_state", "C06_reload_id_moves_only_in_a_pass", "C06_reload_bumps_id_by_one",
      "C06_each_affected_asset_once", "C06_watcher_reports_growth_once",
-     "C06_value_read_after_a_reported_reload_is_as_new"],
-    ["Entry", "CallGraph"], [], mode="hot", extra_engines=[("rwdiff", [])])
+     "C06_value_read_after_a_reported_reload_is_as_new", "C06_code_forgets_dropped_dependencies"],
+    ["Entry", "CallGraph", "Deps", "Private"], [], mode="hot", extra_engines=[("rwdiff", [])])
 
 sys_prop(
     "C09",
@@ -456,14 +457,16 @@ sys_prop(
     "exactly-once ledger over whole histories (incl. reloads, races are C01) is checked on the implementation.  "
     "Partial: swap_any's byte swap and Box::from_raw casts are memory-level and not modelled.",
     ["Proofs/SysGrows.v", "Proofs/SysStatic.v", "Proofs/SysMap.v", "Proofs/SysReload.v", "Tie/Erasure.v",
-     "Tie/Entry.v", "Props/C13.v"],
+     "Tie/Entry.v", "Tie/Maps.v", "Props/C13.v"],
     ["Props/C13.vo"],
-    ["C13_casts_are_guarded_by_the_type_id", "C13_insertion_loser_dropped_at_once",
+    ["C13_casts_are_guarded_by_the_type_id", "C13_insertion_loser_dropped_at_once", "C13_code_insert_keeps_the_first",
      "C13_remove_drops_exactly_the_removed", "C13_take_hands_over_then_the_caller_drops",
      "C13_clear_drops_every_entry", "C13_entries_reachable_through_handles_survive_loads",
      "C13_old_value_is_replaced_under_the_write_lock", "C13_lookup_is_by_type"],
-    ["Entry"], ["value-not-dropped-exactly-once", "handle-changed", "torn-read", "guard-not-pinned"], mode="all",
-    extra_engines=[("rwdiff", [])])
+    ["Entry", "CacheMap", "LocalMap", "Private"],
+    ["value-not-dropped-exactly-once", "handle-changed", "torn-read", "guard-not-pinned", "loser-not-dropped",
+     "racers-disagree"], mode="all",
+    extra_engines=[("rwdiff", []), ("racediff", [])])
 
 sys_prop(
     "C14",
@@ -620,13 +623,14 @@ PROPS["C11"] = dict(
                "equality inside Coq); `an unreadable sub-directory is skipped without hiding its siblings` is "
                "the sysdiff correspondence with Ref.Sys.load_rec_dir_value.",
     level_note="Trusted: as C04; the sort order compared is byte order of the joined ids.",
-    gen=[],
+    gen=["Dirs", "Flags"],
     model_files=["Ref/Tree.v", "Corr/Common.v", "Corr/SrcCheck.v", "Ref/Load.v", "Ref/Sys.v", "Corr/SysCheck.v"],
     model_targets=["Corr/SrcCheck.vo", "Corr/SysCheck.vo"],
-    proof_files=["Proofs/Tree.v", "Props/C11.v"],
+    proof_files=["Proofs/Tree.v", "Tie/Dirs.v", "Props/C11.v"],
     proof_targets=["Props/C11.vo"],
     props_module="Props.C11",
-    theorems=["C11_dir_ids_are_exactly_the_matching_files", "C11_missing_directory_is_an_error"],
+    theorems=["C11_dir_ids_are_exactly_the_matching_files", "C11_missing_directory_is_an_error",
+              "C11_code_as_specified"],
     engines=[("srcdiff", []), ("sysdiff", ["--mode", "cold", "--cases", "200"])],
     relevant_classes=["iter-mismatch"],
     rule=SRC_RULE,
